@@ -152,6 +152,7 @@ func (f *flusher) worker() {
 				if !ok {
 					break
 				}
+				verifPoint("flush.next", b.key)
 				f.flush(b)
 			}
 		}
@@ -177,6 +178,7 @@ func (f *flusher) nextToFlush() (b *blob, ok bool) {
 func (f *flusher) flush(b *blob) {
 	key := b.key
 	defer func() {
+		verifPoint("flush.unban", key)
 		err := f.mem.UnbanEviction(key) // prevent leak
 		if err != nil {
 			f.log.With(
@@ -230,6 +232,7 @@ func (f *flusher) flushMetadatasAndUnmarkDirty(key string, b *blob) error {
 		dirtyMDSnapshot := b.dirtyMD
 		b.dirtyMD = make(map[string]struct{})
 		b.mu.Unlock()
+		verifPoint("flush.mdsnap", key)
 
 		for mdSuffix := range dirtyMDSnapshot {
 			err := f.flushMetadata(key, mdSuffix)
@@ -257,6 +260,7 @@ func (f *flusher) flushMetadatasAndUnmarkDirty(key string, b *blob) error {
 }
 
 func (f *flusher) flushMetadata(key, mdSuffix string) error {
+	verifPoint("flush.md", key)
 	md := metadata.CreateFromSuffix(mdSuffix)
 	ok, err := f.mem.GetMetadata(key, md)
 	if errors.Is(err, os.ErrNotExist) {
@@ -301,6 +305,7 @@ func (f *flusher) flushData(b *blob) error {
 		return fmt.Errorf("disk store create: %w", err)
 	}
 	defer closers.Close(diskF)
+	verifPoint("flush.created", key)
 	f.mu.Lock()
 	_, ok := f.blobs[b.key]
 	if !ok {
